@@ -51,13 +51,14 @@ def run(chk):
     core.run_jobs(chk, theorem_jobs(chk))
     rng = np.random.RandomState(300 + chk.seed)
     batch = obs.Batch('ObsC03')
-    reps = 2 if chk.tier == 'quick' else 12
+    reps = 3 if chk.tier == 'quick' else 12
     for rep in range(reps):
         for dt in ('real', 'complex'):
             cplx = dt == 'complex'
             n = int(rng.choice([48, 64, 96]))
             x = zoo.signal(rng, n, cplx, kind=['noise', 'tones', 'arma'][rep % 3])
-            mod = 10 ** rng.uniform(-3, 3)
+            # "any non-zero scalar": both ends of twelve decades first, then random moduli
+            mod = [1e-6, 1e6][rep] if rep < 2 else 10 ** rng.uniform(-6, 6)
             c = mod * (np.exp(2j * np.pi * rng.rand()) if cplx else rng.choice([-1.0, 1.0]))
             nfft = int(rng.choice([n, 128, 129]))
             for name in zoo.CLASSES + zoo.VARIANTS:
@@ -94,6 +95,18 @@ def run(chk):
                 ok2, b = call_guard(nsig, c * x)
                 batch.add({'ev': 'decision', 'what': 'NSIG-' + crit, 'dt': dt, 'raised': not (ok1 and ok2),
                            'a': a if ok1 else -1, 'b': b if ok2 else -2}, {'c': c, 'seed': chk.seed})
+            # a large data matrix (many singular values enter the criterion)
+            if rep < 2 or not cplx:
+                xl = zoo.signal(rng, 128, cplx, kind='tones')
+                for crit in ('aic', 'mdl'):
+                    def nsig_big(d):
+                        from spectrum.eigenfre import _get_signal_space
+                        S = eigen(d, 48, NSIG=None, method='music', NFFT=128, criteria=crit)[1]
+                        return int(_get_signal_space(S, 2 * min(len(d) - 48, 100), NSIG=None, threshold=None, criteria=crit))
+                    ok1, a = call_guard(nsig_big, xl)
+                    ok2, b = call_guard(nsig_big, c * xl)
+                    batch.add({'ev': 'decision', 'what': 'NSIG-%s-IP48' % crit, 'dt': dt, 'raised': not (ok1 and ok2),
+                               'a': a if ok1 else -1, 'b': b if ok2 else -2}, {'c': c, 'seed': chk.seed})
             # ... and chosen by a threshold on the singular values (relative to the smallest one)
             for thr in (1.5, 3.0, 10.0, 50.0):
                 def nsig_t(d):
